@@ -125,10 +125,14 @@ pub enum IKind {
     Bytes,
     Io,
     Tree,
+    /// version 4: `&chumsky::text::Graphemes`
+    Graphemes,
+    /// version 4: `&[&Grapheme]`
+    GSlice,
 }
 
 impl IKind {
-    pub const ALL: [IKind; 13] = [
+    pub const ALL: [IKind; 15] = [
         IKind::Str,
         IKind::Slice,
         IKind::Array,
@@ -142,6 +146,8 @@ impl IKind {
         IKind::Bytes,
         IKind::Io,
         IKind::Tree,
+        IKind::Graphemes,
+        IKind::GSlice,
     ];
 
     pub fn name(self) -> &'static str {
@@ -159,6 +165,8 @@ impl IKind {
             IKind::Bytes => "bytes",
             IKind::Io => "io",
             IKind::Tree => "tree",
+            IKind::Graphemes => "graphemes",
+            IKind::GSlice => "gslice",
         }
     }
 
@@ -169,6 +177,11 @@ impl IKind {
     /// Tokens are `u8` (else `char`).
     pub fn byte_tokens(self) -> bool {
         matches!(self, IKind::Bytes | IKind::Io)
+    }
+
+    /// Tokens are grapheme clusters, written as cluster ids (FORMAT.md, version 4).
+    pub fn grapheme_tokens(self) -> bool {
+        matches!(self, IKind::Graphemes | IKind::GSlice)
     }
 
     /// The input is written `((t s e) ...)`: every token carries its own span.
@@ -236,6 +249,23 @@ pub type STree = (TTree, usize, usize);
 
 /// Group ids of the `tree` kind start here (above every `char`).
 pub const GROUP_ID_MIN: u32 = 2_000_000;
+
+/// Cluster ids of the grapheme kinds: an id below `0x110000` is the cluster made of that single code point,
+/// `CLUSTER_ID_MIN + k` is entry `k` of `CLUSTERS` (FORMAT.md, version 4).
+pub const CLUSTER_ID_MIN: u32 = 3_000_000;
+
+/// The fixed table of multi-code-point clusters.
+pub const CLUSTERS: [&str; 6] = [
+    "\r\n",
+    "e\u{301}",
+    "\u{1F1E9}\u{1F1EA}",
+    "\u{1F468}\u{200D}\u{1F469}\u{200D}\u{1F467}",
+    "\u{1100}\u{1161}\u{11A8}",
+    "a\u{308}\u{323}",
+];
+
+/// What a cluster prints as when it is neither a single code point nor in `CLUSTERS`.
+pub const CLUSTER_ID_UNKNOWN: u32 = 3_999_999;
 
 /// The wrappers of a history case.
 #[derive(Clone, Copy, Debug, PartialEq, Eq)]
@@ -306,13 +336,16 @@ pub fn line_kind(s: &Sexp) -> LineKind {
 
 type R<T> = Option<T>;
 
-/// Which numbers are tokens: Unicode scalar values (`char` kinds) or `0..=255` (`u8` kinds).
+/// Which numbers are tokens: Unicode scalar values (`char` kinds), `0..=255` (`u8` kinds), chars and group ids
+/// (`tree`), cluster ids (`graphemes`, `gslice`).
 #[derive(Clone, Copy, Debug, PartialEq)]
 pub enum Tk {
     Char,
     Byte,
     /// `tree`: a char (leaf) or a group id
     Tree,
+    /// `graphemes`, `gslice`: a cluster id (a char, or `CLUSTER_ID_MIN + k` for entry `k` of `CLUSTERS`)
+    Cluster,
 }
 
 impl Tk {
@@ -321,6 +354,9 @@ impl Tk {
             Tk::Char => char::from_u32(n).is_some(),
             Tk::Byte => n < 256,
             Tk::Tree => char::from_u32(n).is_some() || n >= GROUP_ID_MIN,
+            Tk::Cluster => {
+                char::from_u32(n).is_some() || (CLUSTER_ID_MIN..CLUSTER_ID_MIN + CLUSTERS.len() as u32).contains(&n)
+            }
         }
     }
 }
@@ -395,6 +431,8 @@ pub fn parse_case(s: &Sexp) -> R<Case> {
         Tk::Byte
     } else if ikind == IKind::Tree {
         Tk::Tree
+    } else if ikind.grapheme_tokens() {
+        Tk::Cluster
     } else {
         Tk::Char
     };
